@@ -73,7 +73,8 @@ DocsC(md) == LET tc == TablesC(md) \cup Wide IN
              \cup {D(f, <<Plain, t, Plain>>, 0, 0) : f \in Fmts, t \in {x \in tc : x.tb.rows = md /\ x.tb.cols = md}}
 
 \* ---- family D: headings by every declaration, header / footer parts, lists -
-Heads(f) == {H(l, how) : l \in 1..3, how \in IF f = "docx" THEN Hows ELSE {"builtin", "custom1", "outline"}}
+Heads(f) == {H(l, how) : l \in (IF f = "docx" THEN {1, 2, 3, 6, 7, 9} ELSE {1, 2, 3, 6, 7, 10}),
+                          how \in IF f = "docx" THEN Hows ELSE {"builtin", "custom1", "outline"}}
 ListRuns == {<<LI(0, n1), LI(1, n1), LI(2, n1), LI(1, n1), LI(0, n1)>> : n1 \in {"bullet", "decimal"}}
             \cup {<<LI(0, "bullet"), LI(1, "bullet"), LI(0, "decimal"), LI(1, "decimal"), LI(1, "decimal")>>}
 DocsD(x) == UNION {{D(f, <<h, Plain>>, hd, ft) : h \in Heads(f), hd \in {0, 1}, ft \in {0, 1}} : f \in Fmts}
@@ -91,10 +92,10 @@ MCDocs == CASE Fam = "C" -> DocsC(MaxDim)
 \* one of the chain's styles (a cycle).  Every style independently declares nothing or a
 \* heading level in one of the ways of the format, so the declaring style sits at every
 \* position of the chain (first, middle, root) and "nearest wins" is distinguishable:
-\* DOCX levels builtin 2, nameL 3, nameU 4, outline 1.  ODT: the text:h has level 3 and the
+\* DOCX levels builtin 2, nameL 3, nameU 7, outline 9.  ODT: the text:h has level 3 and the
 \* declaring styles agree with it.
 DeclLvl(f, dc) == IF f = "odt" THEN 3
-                  ELSE CASE dc = "builtin" -> 2 [] dc = "nameL" -> 3 [] dc = "nameU" -> 4 [] OTHER -> 1
+                  ELSE CASE dc = "builtin" -> 2 [] dc = "nameL" -> 3 [] dc = "nameU" -> 7 [] OTHER -> 9
 SheetDecls(f) == IF f = "docx" THEN {"none", "builtin", "nameL", "nameU", "outline"}
                  ELSE {"none", "builtin", "bare", "outline"}
 ChainSheet(f, dcs, last) == [i \in 1..Len(dcs) |->
